@@ -25,8 +25,8 @@ func RolesForKind(kind int) []string {
 
 func (w *World) control(dstShard uint32, rcv []byte, fn string, args [][]byte, tag string) *Msg {
 	w.ctlIdx++
-	m := &Msg{ID: fmt.Sprintf("%d.c%d", w.curN, w.ctlIdx), Kind: KindControl, Snd: append([]byte{}, vmcommon.ESDTSCAddress...), Rcv: append([]byte{}, rcv...),
-		Data: BuildData(fn, args), Value: big.NewInt(0), Gas: 0, CallType: vmcommon.DirectCall, SrcShard: vmcommon.MetachainShardId, DstShard: dstShard, Tag: tag}
+	m := &Msg{ID: fmt.Sprintf("%d.c%d", w.curN, w.ctlIdx), Kind: KindControl, Snd: append([]byte{}, spec.ESDTSystemSC...), Rcv: append([]byte{}, rcv...),
+		Data: BuildData(fn, args), Value: big.NewInt(0), Gas: 0, CallType: vmcommon.DirectCall, SrcShard: spec.MetaShard, DstShard: dstShard, Tag: tag}
 	w.Pool = append(w.Pool, m)
 	w.logf("  control %s -> shard %d rcv=%x %s", m.ID, dstShard, rcv, m.Data)
 	return m
@@ -42,7 +42,7 @@ func (w *World) ApplySC(a *SCAction) bool {
 	addr := unhx(a.Addr)
 	shard := ShardOf(addr, w.Cfg.NumShards)
 	needAddr := a.Op != "pause" && a.Op != "unpause"
-	if needAddr && (len(addr) != 32 || shard == vmcommon.MetachainShardId) {
+	if needAddr && (len(addr) != 32 || shard == spec.MetaShard) {
 		return false
 	}
 	w.ctlIdx = 0
@@ -133,7 +133,7 @@ func (w *World) ApplySC(a *SCAction) bool {
 		}
 		t.Paused = a.Op == "pause"
 		for s := uint32(0); s < w.Cfg.NumShards; s++ {
-			rcv := append([]byte{}, vmcommon.SystemAccountAddress...)
+			rcv := append([]byte{}, spec.SystemAccount...)
 			if a.Nonce%3 == 1 {
 				// a per-shard form of the system account address (the first 30 bytes identify it)
 				rcv[30], rcv[31] = byte(a.Nonce>>8), byte(s)
@@ -144,7 +144,7 @@ func (w *World) ApplySC(a *SCAction) bool {
 		// a control call from a metachain contract that is NOT the ESDT system contract (staking,
 		// delegation, ...): only the ESDT system contract has authority (C03)
 		caller := unhx(a.Addr2)
-		if len(caller) != 32 || ShardOf(caller, w.Cfg.NumShards) != vmcommon.MetachainShardId || bytes.Equal(caller, vmcommon.ESDTSCAddress) {
+		if len(caller) != 32 || ShardOf(caller, w.Cfg.NumShards) != spec.MetaShard || bytes.Equal(caller, spec.ESDTSystemSC) {
 			return false
 		}
 		var args [][]byte
@@ -155,7 +155,7 @@ func (w *World) ApplySC(a *SCAction) bool {
 			args = [][]byte{t.ID}
 		case spec.FnPause, spec.FnUnPause:
 			args = [][]byte{t.ID}
-			rcv = vmcommon.SystemAccountAddress
+			rcv = spec.SystemAccount
 		case spec.FnSetRole, spec.FnUnSetRole:
 			if len(a.Roles) == 0 {
 				return false
@@ -169,7 +169,7 @@ func (w *World) ApplySC(a *SCAction) bool {
 		w.Stats.Probes["control-from-other-metachain-contract"]++
 	case "drop":
 		caller := unhx(a.Addr2)
-		if len(caller) != 32 || ShardOf(caller, w.Cfg.NumShards) != vmcommon.MetachainShardId {
+		if len(caller) != 32 || ShardOf(caller, w.Cfg.NumShards) != spec.MetaShard {
 			return false
 		}
 		amt, ok := new(big.Int).SetString(a.Amount, 10)
@@ -221,7 +221,7 @@ func (w *World) ApplySC(a *SCAction) bool {
 	case "handover":
 		to := unhx(a.Addr2)
 		if t.Creator == "" || t.Pending || t.Lost || string(addr) != t.Creator || bytes.Equal(to, addr) || len(to) != 32 ||
-			ShardOf(to, w.Cfg.NumShards) == vmcommon.MetachainShardId {
+			ShardOf(to, w.Cfg.NumShards) == spec.MetaShard {
 			return false
 		}
 		t.Pending = true
